@@ -70,6 +70,9 @@ MUTANTS = {
         ('count_not_written', r'b\.put_u16\(messages\.len\(\) as u16\)\?;', 'b.put_u16(0)?;'),
         ('fields_swapped', r'b\.put_varint\(slice\.slice_index as u64\)\?;(\s+)b\.put_varint\(slice\.num_slices as u64\)\?;', r'b.put_varint(slice.num_slices as u64)?;\1b.put_varint(slice.slice_index as u64)?;'),
         ('empty_reliable_slice_accepted', r'if payload\.is_empty\(\) \{', 'if false {'),
+        ('ack_enc_gap_off_by_one', r'let gap = previous_range_start - range\.end - 1;', 'let gap = previous_range_start - range.end;'),
+        ('ack_enc_count_wrong', r'b\.put_varint\(it\.len\(\) as u64\)\?;', 'b.put_varint(it.len() as u64 + 1)?;'),
+        ('ack_enc_size_not_minus_one', r'let range_size = \(range\.end - 1\) - range\.start;', 'let range_size = range.end - range.start;'),
         ('first_range_inclusive_end', r'ack_ranges\.push\(first_range_start\.\.first_range_end \+ 1\);', 'ack_ranges.push(first_range_start..first_range_end);'),
     ],
     'U7': [
